@@ -164,8 +164,19 @@ func (c *conn) CloseWrite() error {
 // CloseWrite shuts down the write side of c and leaves the read side open.
 // It looks through the tcpproxy.Conn wrapper of the https+tcp+sni listener
 // which does not pass CloseWrite on to the connection it wraps.
+//
+// On a TLS connection (listener with a certificate source) the end of the
+// stream is the close_notify alert which can be sent only after the
+// handshake: when the upstream finishes before the client has completed the
+// handshake, wait for it instead of failing (and closing the connection of
+// a client which has not sent anything yet).
 func CloseWrite(c net.Conn) error {
 	for {
+		if tc, ok := c.(*tls.Conn); ok {
+			if err := tc.Handshake(); err != nil {
+				return err
+			}
+		}
 		if cw, ok := c.(closeWriter); ok {
 			return cw.CloseWrite()
 		}
